@@ -72,6 +72,10 @@ fn assemble(rows: Vec<H>, n: usize) -> H {
         return H::Lead(vec![0]);
     }
     let mut vals = Vec::with_capacity(rows.len());
+    // a failure of any row is the failure of the whole, also when another row met an empty axis
+    if let Some(H::E(e)) = rows.iter().find(|r| matches!(r, H::E(_))) {
+        return H::E(e.clone());
+    }
     for r in rows {
         match r {
             H::E(e) => return H::E(e),
@@ -128,7 +132,8 @@ fn run1(src: &str, args: &[Value], evals: &mut usize) -> Result<Value, String> {
             }
             let v = out.pop().unwrap();
             if let Err(e) = uiua::verif::check_value(&v) {
-                return Err(format!("MALFORMED result: {e}"));
+                let kind = if e.contains("marked sorted") { "STALE-MARK" } else { "MALFORMED" };
+                return Err(format!("{kind} result: {e} | value {} shape {:?}", catch(|| v.show().replace('\n', " ")).unwrap_or_default(), &*v.shape));
             }
             Ok(v)
         }
@@ -174,6 +179,9 @@ fn hand_inventory(f: &str, x: &Value, k: usize, ev: &mut usize) -> H {
         .collect();
     if x.rank() == 0 {
         return rs.into_iter().next().unwrap();
+    }
+    if let Some(H::E(e)) = rs.iter().find(|h| matches!(h, H::E(_))) {
+        return H::E(e.clone());
     }
     if rs.iter().any(|h| matches!(h, H::Lead(_))) {
         return H::Lead(vec![n]);
@@ -465,6 +473,7 @@ fn classify(hand: &H, imp: &Result<Value, String>, x: &Value, k: usize, operand:
     }
     match (hand, imp) {
         (_, Err(e)) if e.starts_with("MALFORMED") => "malformed-result".into(),
+        (_, Err(e)) if e.starts_with("STALE-MARK") => format!("stale-sorted-mark:{bare}"),
         (H::Lead(_), Err(_)) => "empty-axis-error".into(),
         (H::Lead(_), Ok(_)) => "empty-axis-leading-length".into(),
         _ if x.rank() < k => "rows-depth-below-rank".into(),
@@ -516,6 +525,7 @@ fn search(r: &mut Rng, n: usize) {
     marked_corpus(&mut rep, &mut ev);
     multi_corpus(&mut rep, &mut ev);
     routing_corpus(&mut rep, &mut ev, r);
+    round5_corpus(&mut rep, &mut ev);
     let mut i = 0;
     while i < n {
         i += 1;
@@ -628,6 +638,13 @@ fn search(r: &mut Rng, n: usize) {
             let x = garr(r, 2, -1, 1, 1);
             let y = garr(r, 2, -1, 1, 1);
             table_case(&mut rep, &mut ev, f, &x, &y);
+            if r.chance(1, 4) {
+                table_case_sub(&mut rep, &mut ev, "⊞₋₁", f, &x, &y);
+            }
+            if r.chance(1, 4) {
+                let red = *r.pick(&["+", "×", "↥", "↧"]);
+                reduce_table_case(&mut rep, &mut ev, red, f, &x, &y);
+            }
         } else if fam < 76 {
             // reduce / scan, possibly under rows
             let f = *r.pick(DY);
@@ -1007,6 +1024,12 @@ fn marked_case(rep: &mut Rep, ev: &mut usize, kind: usize, f: &str, k: usize, x:
 /// the fixed part of the directed family: every specialised reduce / scan operand on small
 /// matrices whose rows are lexicographically ordered while a later column is not monotone
 fn marked_corpus(rep: &mut Rep, ev: &mut usize) {
+    // first at depth 2 keeps a sorted-up mark that the result does not satisfy (open finding)
+    let x3 = mark(&num(&[3, 2, 2], &[0., 9., 3., 0., 2., 0., 2., 5., 2., 1., 0., 0.]), 0, ev);
+    for f in ["⊢", "⊣", "(⍆⊢)", "(⍆⊣)"] {
+        mapping_case(rep, ev, "≡", f, 2, &x3);
+        mapping_case(rep, ev, "≡", f, 1, &x3);
+    }
     let mats: Vec<Value> = vec![
         num(&[3, 2], &[2., 3., 1., 5., 1., 7.]),
         byte(&[3, 2], &[2, 3, 1, 5, 1, 7]),
@@ -1120,15 +1143,70 @@ fn dyadic_rows_case(rep: &mut Rep, ev: &mut usize, f: &str, x: &Value, y: &Value
 }
 
 fn table_case(rep: &mut Rep, ev: &mut usize, f: &str, x: &Value, y: &Value) {
+    table_case_sub(rep, ev, "⊞", f, x, y)
+}
+
+/// `tbl` is ⊞, or ⊞₋₁ (combinations of the cells one axis deep = of the rows), or, for lists, ⊞₋₂
+fn table_case_sub(rep: &mut Rep, ev: &mut usize, tbl: &str, f: &str, x: &Value, y: &Value) {
     let hand = hand_table(f, x, y, ev);
     for (prelude, op, vname) in wrap_variants(f) {
-        let src = format!("{prelude}⊞{op}");
+        let src = format!("{prelude}{tbl}{op}");
         let imp = run1(&src, &[x.clone(), y.clone()], ev);
-        rep.count("⊞");
+        rep.count(tbl);
         if !agrees(&hand, &imp) {
             let class = classify(&hand, &imp, x, 1, f, "⊞");
-            rep.report("⊞", &class, f, vname, &src.replace('\n', " ; "), &[x, y], &show_h(&hand), &show_r(&imp));
+            rep.report(tbl, &class, f, vname, &src.replace('\n', " ; "), &[x, y], &show_h(&hand), &show_r(&imp));
         }
+    }
+}
+
+/// `/F⊞G x y` (fused by the optimiser) against the table by hand, then the reduction by hand
+fn reduce_table_case(rep: &mut Rep, ev: &mut usize, f: &str, g: &str, x: &Value, y: &Value) {
+    if x.rank() == 0 || x.row_count() == 0 {
+        return;
+    }
+    let hand = match hand_table(g, x, y, ev) {
+        H::V(t) => hand_reduce(f, &t, ev),
+        // an empty second axis: the reduction removes the first one
+        H::Lead(p) if p.len() >= 2 => H::Lead(p[1..].to_vec()),
+        h => h,
+    };
+    for (src, vname) in [(format!("/{f}⊞{g}"), "direct"), (format!("Fa ← {}\nGa ← {}\n/Fa⊞Ga", bare_of(f), bare_of(g)), "wrapper"), (format!("/({}∘)⊞({}∘)", bare_of(f), bare_of(g)), "noise")] {
+        let imp = run1(&src, &[x.clone(), y.clone()], ev);
+        rep.count("/⊞");
+        if !agrees(&hand, &imp) {
+            let class = classify(&hand, &imp, x, 1, f, "/⊞");
+            rep.report("/⊞", &class, &format!("{f} {g}"), vname, &src.replace('\n', " ; "), &[x, y], &show_h(&hand), &show_r(&imp));
+        }
+    }
+}
+
+/// regression inputs of the round-5 repairs that the families cover
+fn round5_corpus(rep: &mut Rep, ev: &mut usize) {
+    let l12 = num(&[2], &[1., 2.]);
+    let l34 = num(&[2], &[3., 4.]);
+    let m = num(&[2, 2], &[1., 0., 3., 2.]);
+    // 13770ba / fca5c4a: subscripted table built a malformed array / crashed
+    for f in ["⊟", "+", "⊂", "(⊟⊙⇌)"] {
+        table_case_sub(rep, ev, "⊞₋₂", f, &l12, &l34);
+        table_case_sub(rep, ev, "⊞₋₁", f, &l12, &l34);
+        table_case_sub(rep, ev, "⊞₋₁", f, &m, &l34);
+        table_case_sub(rep, ev, "⊞₋₁", f, &m, &m);
+        table_case_sub(rep, ev, "⊞₋₁", f, &num(&[0], &[]), &l34);
+    }
+    // d541d8e: the fused reduce-table with min / max dropped NaN
+    let nan = num(&[1], &[f64::NAN]);
+    for (f, g) in [("↥", "-"), ("↧", "-"), ("↥", "+"), ("+", "×"), ("↧", "↥")] {
+        reduce_table_case(rep, ev, f, g, &num(&[2], &[1., 1.]), &nan);
+        reduce_table_case(rep, ev, f, g, &num(&[3], &[1., f64::NAN, 2.]), &l34);
+        reduce_table_case(rep, ev, f, g, &l12, &l34);
+        reduce_table_case(rep, ev, f, g, &m, &l34);
+    }
+    // b393eee: rows of no rows with rise / fall / reciprocal / fused abs forms
+    for f in ["(⊏⍏.)", "(⊏⍖.)", "(×.⌵)", "(¯⌵)", "(÷1)", "⍏", "⍖"] {
+        mapping_case(rep, ev, "≡", f, 1, &chars(&[0], &[]));
+        mapping_case(rep, ev, "≡", f, 1, &num(&[0, 0], &[]));
+        mapping_case(rep, ev, "≡", f, 1, &num(&[2, 3], &[3., 1., 2., 0., 5., 4.]));
     }
 }
 
